@@ -345,6 +345,31 @@ Proof.
       * intros [H|[j [p [Hj H]]]]; [left; auto|]. right. exists j, p. split; auto. destruct j; auto; lia.
 Qed.
 
+Lemma guard_raises_before_fit ops k o res f' :
+  nth_error ops k = Some o -> nth_error (grun false ops) k = Some (res, f') ->
+  needs_fit o = true ->
+  (forall j p, j < k -> nth_error ops j = Some p -> fits p = false) ->
+  res = RErr.
+Proof.
+  intros Hk Hr N Hno.
+  destruct (grun_guard false ops k o res f' Hk Hr) as [A _]. specialize (A N).
+  destruct res; auto. exfalso.
+  destruct (proj1 A eq_refl) as [H|[j [p [Hj [Hp Fp]]]]]; [discriminate|].
+  rewrite (Hno j p Hj Hp) in Fp. discriminate.
+Qed.
+
+Lemma guard_passes_after_fit ops k o res f' :
+  nth_error ops k = Some o -> nth_error (grun false ops) k = Some (res, f') ->
+  (needs_fit o = true ->
+   (exists j p, j < k /\ nth_error ops j = Some p /\ fits p = true) -> res = ROk) /\
+  (f' = true <-> exists j p, j <= k /\ nth_error ops j = Some p /\ fits p = true).
+Proof.
+  intros Hk Hr. destruct (grun_guard false ops k o res f' Hk Hr) as [A B].
+  split.
+  - intros N H. apply (A N). right. exact H.
+  - rewrite B. split; [intros [H|H]; [discriminate | exact H] | auto].
+Qed.
+
 (* ------------------------------------------------------------------ metrics *)
 Open Scope Q_scope.
 
